@@ -29,6 +29,8 @@ def regen(ctx):
 # ------------------------------------------------------------------ types and values
 
 def ckind(t):
+    if t in cc.UNIONS:
+        return 'union'
     if t in COMPLEX:
         return 'complex'
     if t == 'void':
@@ -37,6 +39,8 @@ def ckind(t):
 
 
 def csize(t):
+    if t in cc.UNIONS:
+        return cc.UNIONS[t][2]
     if t in COMPLEX:
         return COMPLEX[t]
     if t == 'void':
@@ -83,6 +87,8 @@ def gen_const(rng, t):
         return rng.choice([None, 0, 8, 40])
     if k == 'struct':
         return [gen_const(rng, ft) for fn, ft in cc.STRUCTS[t]]
+    if k == 'union':
+        return gen_const(rng, cc.UNIONS[t][1])
     raise KeyError(t)
 
 
@@ -109,6 +115,8 @@ def recv_canon(t, v):
         return ["ptr", v]
     if k == 'struct':
         return ["struct", [recv_canon(ft, fv) for (fn, ft), fv in zip(cc.STRUCTS[t], v)]]
+    if k == 'union':
+        return ["union", recv_canon(cc.UNIONS[t][1], v)]
     raise KeyError(t)
 
 
@@ -131,6 +139,8 @@ def ret_spec(t, v):
         return ["struct", [ret_spec(ft, fv) for (fn, ft), fv in zip(cc.STRUCTS[t], v)]]
     if k == 'void':
         return ["none"]
+    if k == 'union':
+        return ["union", ret_spec(cc.UNIONS[t][1], v)]
     raise KeyError(t)
 
 
@@ -183,6 +193,11 @@ def enc(t, spec, gbuf):
         if spec[0] != "ptr":
             return None
         return (0 if spec[1] is None else gbuf + spec[1]).to_bytes(8, "little")
+    if k == 'union':
+        if spec[0] != "union":
+            return None
+        b = enc(cc.UNIONS[t][1], spec[1], gbuf)
+        return b + b"\0" * (s - len(b))
     if k == 'struct':
         if spec[0] != "struct":
             return None
@@ -199,6 +214,9 @@ def mask(t):
     k = ckind(t)
     if t == 'long double':
         return [1] * 10 + [0] * 6
+    if k == 'union':        # only the first member is specified
+        n = csize(cc.UNIONS[t][1])
+        return [1] * n + [0] * (csize(t) - n)
     if k == 'struct':
         out = []
         for fn, ft in cc.STRUCTS[t]:
@@ -223,7 +241,7 @@ def gen_bad_ret(rng, t):
         return rng.choice([["none"], ["str", [49]], ["obj"]])
     if k == 'ptr':
         return rng.choice([["int", 0], ["none"], ["float", d2hex(0.0)], ["str", [97]]])
-    if k == 'struct':
+    if k in ('struct', 'union'):
         return rng.choice([["int", 0], ["none"], ["str", [97]], ["obj"]])
     if k == 'void':
         return rng.choice([["int", 0], ["str", [97]], ["bool", 0], ["float", d2hex(0.0)]])
@@ -232,7 +250,7 @@ def gen_bad_ret(rng, t):
 
 def gen_sig(rng, i, allow_complex):
     nargs = rng.choice([0, 1, 1, 2, 2, 3, 4, 5, 7])
-    pool = ARGT + (['float _Complex'] * 3 if allow_complex else [])
+    pool = ARGT + (['float _Complex'] * 3 + sorted(cc.UNIONS) if allow_complex else [])
     args = [rng.choice(pool) for _ in range(nargs)]
     res = rng.choice(pool + ['void', 'void', 'int', 'short', 'signed char'] + (['double _Complex'] * 4 if allow_complex else []))
     return dict(args=args, res=res, consts=[gen_const(rng, t) for t in args])
@@ -241,7 +259,8 @@ def gen_sig(rng, i, allow_complex):
 def gen_scenarios(rng, sigs, si, n, out):
     sig = sigs[si]
     R = sig["res"]
-    has_complex = R in COMPLEX or any(a in COMPLEX for a in sig["args"])
+    has_complex = R in COMPLEX or any(a in COMPLEX for a in sig["args"]) or ckind(R) == 'union' \
+        or any(ckind(a) == 'union' for a in sig["args"])          # libffi supports neither: extern "Python" only
     for _ in range(n):
         path = "externpy" if has_complex else rng.choice(["externpy", "callback"])
         r = rng.random()
@@ -290,6 +309,10 @@ def generate(ctx):
         for t in ['double _Complex', 'long double', 'struct s3', 'struct s6', 'float _Complex', 'struct s4']:
             sigs.append(dict(args=[], res=t, consts=[]))
             sigs.append(dict(args=["char"], res=t, consts=[gen_const(rng, "char")]))
+        # unions by value (<= 8 bytes and > 8 bytes), alone, followed by other arguments, and as results
+        for u in sorted(cc.UNIONS):
+            sigs.append(dict(args=[u], res="int", consts=[gen_const(rng, u)]))
+            sigs.append(dict(args=[u, "int", "double"], res=u, consts=[gen_const(rng, u), 7, d2hex(1.5)]))
         sigs.append(dict(args=["double _Complex", "int"], res="int", consts=[gen_const(rng, "double _Complex"), 5]))
         sigs.append(dict(args=["double _Complex", "double _Complex", "short"], res="void",
                          consts=[[d2hex(1.0), d2hex(2.0)], [d2hex(3.0), d2hex(4.0)], -7]))
@@ -305,18 +328,22 @@ def generate(ctx):
     # ASan smoke (every tier): results at the buffer-size boundary (double _Complex / long double / struct / float _Complex
     # with 0 and 1 arguments, value / error value / zero fill), and the last-argument double _Complex store (8 bytes past `a`)
     sigs = []
-    for t in ['double _Complex', 'long double', 'struct s3', 'float _Complex', 'int8_t']:
+    for t in ['double _Complex', 'long double', 'struct s3', 'float _Complex', 'int8_t', 'union u3']:
         sigs.append(dict(args=[], res=t, consts=[]))
         sigs.append(dict(args=["char"], res=t, consts=[gen_const(rng, "char")]))
+    for u in ['union u1', 'union u3', 'union u5', 'union u4']:
+        sigs.append(dict(args=[u], res="int", consts=[gen_const(rng, u)]))
+        sigs.append(dict(args=[u, "short", u], res="void", consts=[gen_const(rng, u), -3, gen_const(rng, u)]))
     scen = []
     for si, sg in enumerate(sigs):
         R = sg["res"]
-        scen.append(dict(id=len(scen), sig=si, path="externpy", body=["ret", ret_spec(R, gen_const(rng, R))], error=None,
+        val = (lambda: ret_spec(R, gen_const(rng, R))) if R != 'void' else (lambda: ["none"])
+        scen.append(dict(id=len(scen), sig=si, path="externpy", body=["ret", val()], error=None,
                          onerror=["none"], wide=False))
-        scen.append(dict(id=len(scen), sig=si, path="externpy", body=["raise"], error=ret_spec(R, gen_const(rng, R)),
+        scen.append(dict(id=len(scen), sig=si, path="externpy", body=["raise"], error=val() if R != 'void' else None,
                          onerror=["none"], wide=False))
         scen.append(dict(id=len(scen), sig=si, path="externpy", body=["ret", gen_bad_ret(rng, R)], error=None,
-                         onerror=["ret", ret_spec(R, gen_const(rng, R))], wide=False))
+                         onerror=["ret", val()] if R != 'void' else ["retnone"], wide=False))
     sigs.append(dict(args=["double _Complex"], res="void", consts=[[d2hex(1.5), d2hex(-2.25)]]))
     scen.append(dict(id=len(scen), sig=len(sigs) - 1, path="externpy", body=["ret", ["none"]], error=None, onerror=["none"],
                      wide=False))
